@@ -96,6 +96,8 @@ func (p params) String() string {
 		closeKindNames[p.closeKind], p.closeStep, p.badCode, p.badLen, p.badFrom, p.fault, p.faultAt)
 }
 
+var readBufMenu = []int{1, 2, 99, 100, 101, 999, 1000, 1001, 32768, 65534, 65535, 65536, 65537, 70000}
+
 var polNames = []string{"all", "1449", "prng3000", "prng64"}
 
 func mkPolicy(i int, seed uint64) memwire.ChunkPolicy {
@@ -191,10 +193,11 @@ const (
 	rpFull
 	rpAlt
 	rpPRNG
+	rpSmall
 	nRespKinds
 )
 
-var respKindNames = []string{"empty", "one", "full", "alt", "prng"}
+var respKindNames = []string{"empty", "one", "full", "alt", "prng", "small"}
 
 func genResp(rng *rand.Rand, kind int) []int {
 	var out []int
@@ -221,8 +224,12 @@ func genResp(rng *rand.Rand, kind int) []int {
 		for i, n := 0, 2+rng.IntN(10); i < n; i++ {
 			add(pr[i%2])
 		}
+	case rpSmall:
+		for i, n := 0, 1+rng.IntN(40); i < n; i++ {
+			add(2 + rng.IntN(63))
+		}
 	case rpPRNG:
-		menu := []int{0, 1, 100, 1000, 65535, 65536}
+		menu := []int{0, 1, 17, 100, 1000, 65535, 65536}
 		for i, n := 0, rng.IntN(13); i < n; i++ {
 			if rng.IntN(3) == 0 {
 				add(rng.IntN(65537))
@@ -271,8 +278,11 @@ func common(rng *rand.Rand, p *params) {
 	if down+up <= 4000 && rng.IntN(3) == 0 {
 		p.pol = 3
 	}
-	p.smallBufs = down <= 2000 && rng.IntN(2) == 0
+	p.smallBufs = down <= 20000 && rng.IntN(2) == 0
 	p.readerSleep = []time.Duration{0, 0, 0, time.Millisecond, 200 * time.Millisecond, time.Second}[rng.IntN(6)]
+	if p.smallBufs && down > 2000 && p.readerSleep > 200*time.Millisecond {
+		p.readerSleep = 200 * time.Millisecond // keep the drain time far below the settle bound
+	}
 }
 
 func bodyClass(n int) string {
@@ -319,7 +329,7 @@ func runConn(c *mon.Case, r *mon.Run, p params, sp **server) {
 		submitted, written, delivered int64
 		writes                        []wrec
 		readErr                       error
-		readerDone                    bool
+		readerDone, inRead            bool
 		dataAfterClose                int
 		writeErrsAfterClose           int
 	)
@@ -417,15 +427,24 @@ func runConn(c *mon.Case, r *mon.Run, p params, sp **server) {
 		brng := mon.NewRand(p.seed ^ 0x7ead)
 		var off int64
 		for {
+			// buffer sizes: PRNG, tiny, and sizes just below/at/above the scripted
+			// response sizes so that remainders of 1 byte and exact fits occur
 			sz := 1 + brng.IntN(20000)
-			if p.smallBufs {
+			switch {
+			case p.smallBufs:
 				sz = 1 + brng.IntN(16)
-			} else if brng.IntN(4) == 0 {
-				sz = 65536 + brng.IntN(2)*4464
+			case brng.IntN(3) == 0:
+				sz = readBufMenu[brng.IntN(len(readBufMenu))]
 			}
 			buf := make([]byte, sz)
 			_, crBefore := closeState()
+			mu.Lock()
+			inRead = true
+			mu.Unlock()
 			n, err := cc.Read(buf)
+			mu.Lock()
+			inRead = false
+			mu.Unlock()
 			if n > 0 {
 				if i := s.down.Check(buf[:n], off); i >= 0 {
 					s.viol("read-stream/not-the-response-bodies", fmt.Sprintf("Read returned %d bytes for stream offset %d; byte %d is not the byte the server sent at offset %d of the concatenated 200-response bodies", n, off, i, off+int64(i)))
@@ -454,8 +473,8 @@ func runConn(c *mon.Case, r *mon.Run, p params, sp **server) {
 				mu.Unlock()
 				return
 			}
-			if p.readerSleep > 0 {
-				time.Sleep(p.readerSleep)
+			if _, cr := closeState(); p.readerSleep > 0 && !cr {
+				time.Sleep(p.readerSleep) // a slow reader; once Close has returned it just drains
 			}
 		}
 	})
@@ -658,10 +677,13 @@ func runConn(c *mon.Case, r *mon.Run, p params, sp **server) {
 		s.viol("after-close/polling-continues", fmt.Sprintf("%d request(s) arrived between 10 and 20 virtual minutes after Close had returned and the system had become quiescent (%d requests after Close in all, %d in total)", late, afterClose, total))
 	}
 	mu.Lock()
-	rd, rerr := readerDone, readErr
+	rd, rerr, stuckInRead := readerDone, readErr, inRead
 	mu.Unlock()
 	readerStuck := false
-	if !rd {
+	if !rd && !stuckInRead {
+		s.viol("harness/reader-neither-done-nor-in-read", "the reader goroutine is neither finished nor inside Read at quiescence")
+		readerStuck = true
+	} else if !rd {
 		readerStuck = true
 		s.viol("after-close/read-blocks-for-ever", fmt.Sprintf("20 virtual minutes after Close returned the reader is still blocked in Read (quiescent, %d bytes delivered)", delivered))
 	} else {
@@ -888,7 +910,7 @@ func TestCheck(t *testing.T) {
 	r := mon.Start(t, "C16")
 	defer r.Finish()
 	r.Note("rule", "four families of meek_lite connections, each in its own synctest bubble against a scripted in-memory HTTP/1.1 server: "+
-		"stream = grid of 5 write-script kinds (tiny 1-100 B x 1-40 writes; size menu 1..65537; big up to 3x65536+1; bursts of 17-40 back-to-back writes; sums of exactly 65536) x 5 response patterns (empty, 1 B x K, 65536 x K, alternating, PRNG sizes) with gaps from {0,1ms,99ms,101ms,6s}, think times 0-10 s, chunked/split responses, Connection: close redials, reader chunk policies, slow readers, with/without front; "+
+		"stream = grid of 5 write-script kinds (tiny 1-100 B x 1-40 writes; size menu 1..65537; big up to 3x65536+1; bursts of 17-40 back-to-back writes; sums of exactly 65536) x 6 response patterns (empty, 1 B x K, 65536 x K, alternating, PRNG sizes, 2-64 B x K) with gaps from {0,1ms,99ms,101ms,6s}, think times 0-10 s, chunked/split responses, Connection: close redials, reader chunk policies, slow readers, with/without front; "+
 		"close = 12-write script x Close at each of the 13 points x 5 ways (writer itself, third goroutine at the same virtual instant, server on request headers, server while thinking, server between two pieces of the response); "+
 		"non200 = 1/2/9/10/12 consecutive answers 500/404/403/503; fault = TCP abort in the response body / no response / silent close. "+
 		"Every connection ends with Close and the after-Close observations. Random dimensions come from the per-connection sub-seed. Non-trivial = at least one request reached the server; distinct = distinct (family, sub-seed).")
